@@ -39,6 +39,7 @@ typedef double complex dc;
 
 #define TOL_ROW		1e-10L	/* row-wise relative backward error (LU paths) */
 #define TOL_NORM	1e-10L	/* column/norm-wise backward error (QR paths) */
+#define TOL_CONS	3e-14L	/* backward error, consistent over-determined */
 #define TOL_NEQ		1e-9L	/* normal-equation residual (least squares) */
 #define TOL_DET		1e-7L	/* determinant, relative (pivot ratio >= 1e-3) */
 #define PR_MIN		1e-6L	/* oracle pivot ratio below which: skipped */
@@ -1379,6 +1380,18 @@ static void run_qr(ctx_t *c, const rect_t *q)
 	int rank;
 
 	gen_dense(m, o, 1900 + (uint64_t)q->bseed * 16 + (uint64_t)o, b);
+	if (o == 2 && m > n) {
+	    /* the second right-hand side of an over-determined system is
+	       consistent: b = A x0 (formed in long double, rounded once) */
+	    static dc x0[MAXN];
+	    gen_dense(n, 1, 1950 + (uint64_t)q->bseed, x0);
+	    for (int i = 0; i < m; ++i) {
+		lc_t sum = 0;
+		for (int j = 0; j < n; ++j)
+		    sum += A[i * n + j] * (lc_t)x0[j];
+		b[i * o + 1] = (dc)sum;
+	    }
+	}
 	memcpy(a, q->a, sizeof(dc) * (size_t)(m * n));
 	memcpy(bw, b, sizeof(dc) * (size_t)(m * o));
 	for (int i = 0; i < n * o; ++i)
@@ -1502,6 +1515,18 @@ static void run_qr(ctx_t *c, const rect_t *q)
 				"determined system: excess unknown %d is "
 				"%g%+gj, documented to be zero", j,
 				creal(x[j * o + k]), cimag(x[j * o + k]));
+	    }
+	    if (m > n && o == 2 && k == 1) {
+		/* consistent over-determined system: a backward-stable
+		   solver leaves a residual of the order of the rounding of
+		   A and b, whatever the condition of A; solving through
+		   A^H A leaves one that grows with the condition */
+		long double e = rn == 0 ? 0 : rn / den;
+		if (!(e <= TOL_CONS))
+		    fail_rect(c, q, o, "residual-consistent", "consistent "
+			    "over-determined system: norm-wise backward "
+			    "error |A x - b| / (|A|_F |x| + |b|) = %.3Le "
+			    "(oracle pivot ratio %.2Le)", e, pr);
 	    }
 	    if (m >= n) {
 		/* minimiser: A^H (A x - b) = 0, column by column against
